@@ -37,8 +37,13 @@ for res in sorted(glob.glob("/tmp/seedres/C*_*.json")):
                             "git -C /repo apply patch.diff; ./check %s --tier quick; git -C /repo checkout -- ." % r["property"]]},
       "check_result": {"exit": r.get("check_exit"), "caught": r.get("check_exit") == 1, "signatures": sigs[:6],
                        "wall_s": r.get("check_wall")},
+      "also_check": r.get("also_check"),
   }
   meta.update({k: v for k, v in old.items() if k in ("caught_after_strengthening", "history")})
+  hist_all = json.load(open(os.path.join(root, "history.json"))) if os.path.exists(os.path.join(root, "history.json")) else {}
+  if name in hist_all:
+    meta["history"] = "missed by the check as it stood when the change was written; caught after strengthening: " + hist_all[name]
+    meta["caught_after_strengthening"] = True
   json.dump(meta, open(meta_path, "w"), indent=1)
 rows = []
 for d in sorted(glob.glob(os.path.join(root, "C*_*"))):
@@ -47,6 +52,10 @@ for d in sorted(glob.glob(os.path.join(root, "C*_*"))):
   first = open(os.path.join(d, "notes.md")).read().strip().split("\n") if os.path.exists(os.path.join(d, "notes.md")) else [""]
   title = next((l.strip("# ").strip() for l in first if l.strip()), "")
   status = ("caught (after strengthening the check)" if m.get("caught_after_strengthening") else "caught") if c["caught"] else "MISSED"
+  ac = m.get("also_check")
+  if not c["caught"] and ac and ac.get("exit") == 1:
+    status = "not this property's check; caught by %s%s" % (ac["id"], " (after strengthening)" if m.get("caught_after_strengthening") else "")
+    c = dict(c, signatures=[l.strip() for l in ac.get("lines", []) if "signature:" in l])
   rows.append("| %s | %s | %s | %s | %s |" % (os.path.basename(d), m["property"], title[:110].replace("|", "/"), status,
                                              "; ".join(s.replace("signature: ", "") for s in c["signatures"][:2])[:160].replace("|", "/")))
 open(os.path.join(root, "INDEX.md"), "w").write(
